@@ -546,6 +546,50 @@ fn case(rec: &mut Rec, ctx: &Ctx, idx: u64, rng: &mut ChaCha20Rng, nonces: &Nonc
   if idx < 1 {
     rec.sample(json!({"tags": tags.len(), "tag": h.tag, "proof": hex(&h.proof), "tampered_variants": tampered}));
   }
+  // ---- completeness after a key synchronisation: a server that ALREADY publishes keys for the
+  // same (or some of the same, or other) tags imports the state of `server`; its verifiable
+  // evaluations must verify under the public key it publishes afterwards, and that key must be
+  // the exporter's (it commits to the key now in use)
+  let importers: Vec<(&str, Vec<u8>)> = vec![
+    ("same-tags", tags.clone()),
+    ("subset", tags.iter().cloned().step_by(2).collect()),
+    ("superset", { let mut v = tags.clone(); v.push(tags[0].wrapping_add(1)); v.sort(); v.dedup(); v }),
+  ];
+  for (shape, mds) in importers {
+    let mut imp = if shape == "same-tags" { other_server.clone() } else { match Server::new(mds) { Ok(s) => s, Err(_) => continue } };
+    let st = match bincode::serialize(&server.get_private_key()).ok().and_then(|b| bincode::deserialize::<ppoprf::ppoprf::ServerKeyState>(&b).ok()) {
+      Some(st) => st,
+      None => {
+        rec.violation("key-state-export-failed", "the exported key state does not survive bincode".into(), json!({"tags": tags.len()}));
+        return;
+      }
+    };
+    imp.set_private_key(st);
+    let ipk = imp.get_public_key();
+    let ipkb = ipk.serialize_to_bincode().expect("pk bincode");
+    for &t in [tag, tags[0], *tags.last().unwrap()].iter() {
+      let input = rand_bytes_in(rng, 0..40);
+      let (bp, _r) = Client::blind(&input);
+      let ev = match imp.eval(&bp, t, true) {
+        Ok(e) => e,
+        Err(e) => {
+          rec.violation("eval-failed:after-key-sync", format!("{}: {:?}", shape, e), json!({"tag": t, "importer": shape}));
+          return;
+        }
+      };
+      rec.evn("honest_verifications_after_key_sync", 2);
+      let own = Client::verify(&ipk, &bp, &ev, t);
+      let exporters = Client::verify(&pk, &bp, &ev, t);
+      if !(own && exporters) {
+        rec.violation(
+          &format!("honest-proof-rejected:after-key-sync:{}", shape),
+          format!("a server that imported a key state ({} importer) issues verifiable evaluations that do not verify (under its own published key {}, under the exporter's key {})", shape, own, exporters),
+          json!({"tag": t, "importer": shape, "pk": hex_short(&ipkb), "exporter_pk": hex_short(&pkb)}),
+        );
+        return;
+      }
+    }
+  }
 }
 
 fn honest_input_again(_h: &[Honest], fallback: &[u8]) -> Vec<u8> {
